@@ -61,6 +61,11 @@ def run(ctx):
                             "decode (%s, hints %s) of %s: model gives %s, implementation gives %s"
                             % (mode, hints, T.short(hx), T.short(m), T.short(ic)),
                             {"kind": "D", "mode": mode, "hints": hints, "hex": hx, "expected": m, "got": ic, "oracle": "model TL/Codec.v dec"})
+        elif f[0] == "G":
+            evals += 1
+            if f[2] != "ok":
+                C.violation(ctx, "marshal-gzip", "tl.Marshal(&objects.GzipPacked{Obj: ...}) does not serialise: %s" % f[3][:120],
+                            {"kind": "G", "value": "objects.GzipPacked{Obj: &tl.PseudoTrue{}}", "expected": "bytes", "got": f[3]})
         elif f[0] == "B":
             _, cid, tid, n, cls, hdr = f
             evals += 1
